@@ -70,6 +70,7 @@ type DstCfg struct {
 	ID          string    `json:"id"`
 	NackPct     int       `json:"nack_pct,omitempty"`
 	MaxAckBatch int       `json:"max_ack_batch"`
+	HoldBatch   int       `json:"hold_batch,omitempty"` // batching destination: acks only once this many writes are pending, or when told to stop
 	HostilePct  int       `json:"hostile_pct,omitempty"`
 	Procs       []ProcCfg `json:"procs,omitempty"`
 }
